@@ -1,8 +1,8 @@
 SPECIFICATION Spec
 CONSTANTS
-  PairMode = "std"
-  Universe <- UniverseQuick
-  FormatsUsed <- AllFormats
+  PairMode = "allcodecs"
+  Universe <- UniverseCrashQuick
+  FormatsUsed <- CrashFormats
   Origin = "writer"
 INVARIANT InvWriterModel
 CHECK_DEADLOCK FALSE
